@@ -127,7 +127,8 @@ def write_replay(pid, clause, detail, rec, err=None, engine=None):
     return path
 
 
-def finish(rep, level='model_checking', engine=None, extra_cov=None):
+def finish(rep, level=None, engine=None, extra_cov=None):
+    level = level or ('fault_enumeration' if rep.pid == 'C20' else 'model_checking')
     """Print verdict lines, write evidence, return exit code."""
     pid = rep.pid
     known = load_known()
